@@ -135,6 +135,7 @@ Section Install.
     so_table : table;
     so_env_before : alist;
     so_out : outcome;
+    so_rec : alist;                 (* pyscript's record after the run *)
     so_env_after : alist
   }.
 
@@ -143,14 +144,14 @@ Section Install.
     let t := process_all vvalid vle (fun k => alookup k env0) cfg (si_files s) in
     match install_plan (si_allow s) (w_rec w) t with
     | PGated => ({| w_env := env0; w_rec := w_rec w |},
-                 {| so_table := t; so_env_before := env0; so_out := OGated; so_env_after := env0 |})
+                 {| so_table := t; so_env_before := env0; so_out := OGated; so_rec := w_rec w; so_env_after := env0 |})
     | PRaised => ({| w_env := env0; w_rec := w_rec w |},
-                  {| so_table := t; so_env_before := env0; so_out := ORaised; so_env_after := env0 |})
+                  {| so_table := t; so_env_before := env0; so_out := ORaised; so_rec := w_rec w; so_env_after := env0 |})
     | PPlan rec1 todo =>
         let env1 := env_install (si_index s) env0 todo in
         let '(r, u) := install_finish (fun k => alookup k env1) (w_rec w) rec1 todo in
         ({| w_env := env1; w_rec := r |},
-         {| so_table := t; so_env_before := env0; so_out := ODone todo r u; so_env_after := env1 |})
+         {| so_table := t; so_env_before := env0; so_out := ODone todo r u; so_rec := r; so_env_after := env1 |})
     end.
 
   Fixpoint run_steps (cfg : deviations) (w : world) (ss : list step_in) : list step_out :=
